@@ -86,6 +86,8 @@ func (s *c03Stub) MatchedLines() uint64 { return s.matched }
 
 func c03Run(f []string) string {
 	switch f[0] {
+	case "reduce":
+		return c03ReduceRun(f)
 	case "csv":
 		rows := c03DecRows(f[1])
 		var b c03Buf
@@ -241,6 +243,13 @@ func c03Gen(r *Rand, tier string) []string {
 		n = 25000
 	}
 	var out []string
+	nReduce := 300
+	if tier == "thorough" {
+		nReduce = 6000
+	}
+	for i := 0; i < nReduce; i++ {
+		out = append(out, c03ReduceCase(r))
+	}
 	for i := 0; i < n; i++ {
 		out = append(out, "csv "+c03EncRows(c03Rows(r)))
 		out = append(out, "agg counter "+HexListS(c03Hist(r, "\x00", 1)))
@@ -283,6 +292,8 @@ func c03Stats(cases []string) map[string]int {
 	for _, c := range cases {
 		f := strings.Fields(c)
 		switch f[0] {
+		case "reduce":
+			c03ReduceStats(f, st)
 		case "csv":
 			st["op.csv"]++
 			rows := c03DecRows(f[1])
@@ -346,5 +357,5 @@ var c03Corpus = []string{
 }
 
 func init() {
-	Register("C03", &Prop{Gen: c03Gen, Run: c03Run, Stats: c03Stats, Corpus: c03Corpus})
+	Register("C03", &Prop{Gen: c03Gen, Run: c03Run, Stats: c03Stats, Corpus: append(append([]string{}, c03Corpus...), c03ReduceCorpus...)})
 }
